@@ -598,6 +598,141 @@ func (w *World) diverge(a, b *Node, steps int) error {
 	return w.verifyAll(true)
 }
 
+// batchBytes (final step of the C06 / C07 cases): slabs also come into being through the batch constructors. A few short
+// element streams whose tail underflows next to a sibling that cannot lend (and ordinary ones) are built into arrays and,
+// through a source map, into maps; every slab of the result goes through the byte-level monitor (reported size ==
+// encoded length rule, decoded size == live size, round trip, head flags), then the containers are disposed of.
+func (w *World) batchBytes(builds int) error {
+	th := atree.VerifThresholds()
+	r := w.rng
+	lim := int(th.MaxInlineArrayElementSize)
+	vlim := int(atree.VerifMaxInlineMapValueSize(3))
+	check := func(n *Node) error {
+		wk := NewWalker(liveGetter(w.ps), w.ps, w.cb)
+		if err := wk.WalkRootID(rootID(n), n, n.Dig); err != nil {
+			return viol("tree", "batch-built %s: %v", n, err)
+		}
+		var st sizeStats
+		for id := range wk.Visited {
+			if s := w.ps.RetrieveIfLoaded(id); s != nil {
+				if err := CheckSlabBytes(s, &st); err != nil {
+					return viol("bytes", "batch-built %s: %v", n, err)
+				}
+			}
+		}
+		w.noteSizeStats(&st)
+		w.stats.Extra["bytes-batch-built-containers"]++
+		return nil
+	}
+	drop := func(n *Node) error {
+		id := rootID(n)
+		dropHandles(n, true)
+		return w.dispose(atree.SlabIDStorable(id))
+	}
+	for b := 0; b < builds; b++ {
+		// array stream: k big elements then a tiny tail / mixed
+		n := 2 + r.Intn(9)
+		var stream []*Node
+		for i := 0; i < n; i++ {
+			sz := []int{3, 40, lim / 2, lim - 1, lim, lim * 45 / 100}[r.Intn(6)]
+			if i == n-1 && r.Intn(2) == 0 {
+				sz = 3
+			}
+			if sz <= 3 {
+				stream = append(stream, &Node{Kind: KU8, U: uint64(i)})
+			} else {
+				stream = append(stream, &Node{Kind: KStr, S: w.strOfByteSize(sz)})
+			}
+		}
+		i := 0
+		ti := w.newTI(false)
+		arr, err := atree.NewArrayFromBatchData(w.st, w.addr, ti, func() (atree.Value, error) {
+			if i == len(stream) {
+				return nil, nil
+			}
+			v := scalarValue(stream[i])
+			i++
+			return v, nil
+		})
+		if err != nil {
+			return viol("bulk-build", "NewArrayFromBatchData(%d elements) failed: %v", len(stream), err)
+		}
+		w.nextNID++
+		an := &Node{Kind: KArr, TI: ti, Arr: arr, VID: arr.ValueID(), Addr: w.addr, nid: w.nextNID, Elems: stream}
+		if err := check(an); err != nil {
+			return err
+		}
+		// one append: the root keeps whatever size bookkeeping it was built with
+		extra := &Node{Kind: KU8, U: 9}
+		if err := arr.Append(scalarValue(extra)); err != nil {
+			return viol("ret-err", "Append to a batch-built array failed: %v", err)
+		}
+		an.Elems = append(an.Elems, extra)
+		if err := check(an); err != nil {
+			return err
+		}
+		if err := drop(an); err != nil {
+			return err
+		}
+		// map through a source map
+		saveTrace := w.traceOn
+		w.traceOn = false
+		src, err := w.NewRootMap(w.addr, w.newTI(false), nil)
+		if err != nil {
+			w.traceOn = saveTrace
+			return err
+		}
+		m := 2 + r.Intn(8)
+		for i := 0; i < m; i++ {
+			sz := []int{3, 40, vlim / 2, vlim - 1, vlim, vlim * 45 / 100}[r.Intn(6)]
+			var v *Node
+			if sz <= 3 {
+				v = &Node{Kind: KU8, U: uint64(i)}
+			} else {
+				v = &Node{Kind: KStr, S: w.strOfByteSize(sz)}
+			}
+			if err := w.OpMapSet(src, &Node{Kind: KU8, U: uint64(i)}, v); err != nil {
+				w.traceOn = saveTrace
+				return err
+			}
+		}
+		w.traceOn = saveTrace
+		it, err := src.Map.ReadOnlyIterator()
+		if err != nil {
+			return viol("bulk-build", "source iterator: %v", err)
+		}
+		w.nextNID++
+		cp := &Node{Kind: KMap, TI: src.TI, Addr: w.addr, M: map[string]*Entry{}, nid: w.nextNID}
+		bm, err := atree.NewMapFromBatchData(w.st, w.addr, atree.NewDefaultDigesterBuilder(), src.TI, w.cb.Compare, w.cb.HashInput, src.Map.Seed(),
+			func() (atree.Value, atree.Value, error) {
+				k, v, err := it.Next()
+				if err != nil || k == nil {
+					return nil, nil, err
+				}
+				return k, v, nil
+			})
+		if err != nil {
+			return viol("bulk-build", "NewMapFromBatchData(%d entries) failed: %v", len(src.M), err)
+		}
+		for ks, e := range src.M {
+			cp.M[ks] = &Entry{Key: cloneModel(e.Key), Val: cloneModel(e.Val), Seq: e.Seq}
+		}
+		cp.seq = src.seq
+		cp.Map = bm
+		cp.VID = bm.ValueID()
+		if err := check(cp); err != nil {
+			return err
+		}
+		if err := drop(cp); err != nil {
+			return err
+		}
+		if err := drop(src); err != nil {
+			return err
+		}
+	}
+	return nil
+}
+
 func c17Stream(w *World, length int, profile int) []*Node {
 	th := atree.VerifThresholds()
 	out := make([]*Node, length)
